@@ -178,6 +178,25 @@ def rule_f3(chk: Check, ix: Index):
                 "the closing quote must emit FSTRING_END and pop the literal-part mode")
 
 
+def _text_var(e: ast.expr, fn: ast.FunctionDef) -> ast.expr:
+    """The conversion character is `<token parameter>.string`, directly or through a local: write it as `s`."""
+    import copy
+    tokparam = [a.arg for a in fn.args.args][1]
+    locals_ = {n.targets[0].id for n in fn.body if isinstance(n, ast.Assign) and isinstance(n.targets[0], ast.Name)
+               and norm_stmt(n.value) == f"{tokparam}.string"}
+
+    class R(ast.NodeTransformer):
+        def visit_Attribute(self, node):
+            if norm_stmt(node) == f"{tokparam}.string":
+                return ast.Name("s", ast.Load())
+            return self.generic_visit(node)
+
+        def visit_Name(self, node):
+            return ast.Name("s", ast.Load()) if node.id in locals_ else node
+
+    return ast.fix_missing_locations(R().visit(copy.deepcopy(e)))
+
+
 def rule_f4(chk: Check, ir, tr):
     # conversion characters: finite-domain evaluation of the guard
     sub = parse_py(repo.SUBHEADER)
@@ -189,7 +208,7 @@ def rule_f4(chk: Check, ir, tr):
     if len(guards) != 1 or not any(isinstance(x, ast.Call) and norm_stmt(x.func).startswith("self.raise_") for x in ast.walk(guards[0])):
         chk.fail("F4-grammar-side", "check_fstring_conversion:guard", where, "no single raising guard on the conversion character")
     else:
-        test = guards[0].test
+        test = _text_var(guards[0].test, fn)
         bad = []
         for cand in ["s", "r", "a", "x", "S", "R", "A", "", "sr", "ss", "ra", "d", "_", "1", "é"]:
             rejected = bool(constfold.fold_expr(test, {"s": cand}))
@@ -199,7 +218,8 @@ def rule_f4(chk: Check, ir, tr):
                     f"the conversion check `{norm_stmt(test)}` treats {bad} differently from CPython, which accepts exactly s, r, a")
     rets = [n for n in fn.body if isinstance(n, ast.Return)]
     chk.count("F4-grammar-side")
-    chk.require(len(rets) == 1 and norm_stmt(rets[0].value) == "s.encode()[0]", "F4-grammar-side", "check_fstring_conversion:value", where,
+    chk.require(len(rets) == 1 and norm_stmt(_text_var(rets[0].value, fn)) in ("s.encode()[0]", "ord(s)"), "F4-grammar-side",
+                "check_fstring_conversion:value", where,
                 "the conversion must be the character's code (ord)")
     # FormattedValue.conversion expression in the grammar: -1 / ord('r') for `=` / the checked conversion
     r = ir.rules.get("fstring_replacement_field")
